@@ -66,6 +66,16 @@ inductive Shape (r : Repo) (h : Hdr) (ok : Bool) (r' : Repo) : Prop
       (ha : r'.arena = r.arena.set pb ((r.br pb).pushed { hdr := h, work := lst.work + w }))
       (hb : r'.branches = r.branches) (hh : r'.heights = r.heights.set h.id (ph + 1))
 
+theorem addToBranch_arena (r : Repo) (h : Hdr) (pb : Nat) (ph : Int) (lst : HData) (w : Nat) :
+    (addToBranch r h pb ph lst w).arena = r.arena.set pb ((r.br pb).pushed { hdr := h, work := lst.work + w }) := by
+  have e : ({ (r.br pb) with headers := (r.br pb).headers ++ [{ hdr := h, work := lst.work + w }] } : Branch).height
+      = (r.br pb).height + 1 := by
+    unfold Branch.height
+    simp only [List.length_append, List.length_cons, List.length_nil]
+    omega
+  unfold Branch.pushed addToBranch Repo.setBranch
+  simp only [e]
+
 theorem forkHeader_shape (r : Repo) (h : Hdr) (ok : Bool) (pb : Nat) (ph : Int) (lst : HData)
     (hp : Passed r h ok pb ph lst) (hne : lst.hdr.id ≠ h.prev) : Shape r h ok (forkHeader r h pb ph).1 := by
   unfold forkHeader
